@@ -2,6 +2,32 @@ package main
 
 // Which harnesses decide which property, with which bounds, per tier.
 
+var c01ids = []string{"no-panic", "string-no-marker", "gostring-no-marker"}
+var c10ids = []string{"parse-xor", "validates", "shape", "render-xor", "param-error-empty"}
+
+func withOnly(rs []hrun, only []string, panics bool) []hrun {
+	out := make([]hrun, len(rs))
+	for i, r := range rs {
+		r.Only = only
+		r.Panics = panics
+		out[i] = r
+	}
+	return out
+}
+
+func ctxRuns(thorough bool) []hrun {
+	var r []hrun
+	for df := 0; df <= 1; df++ {
+		for c := 0; c < 19; c++ {
+			r = append(r, hrun{Harness: "ParseCtx", Params: P("CTX", c, "S", 1, "DF", df)})
+			if (df == 0 || thorough) && c != 2 { // context 2 has two holes: S=2 would be four free slots
+				r = append(r, hrun{Harness: "ParseCtx", Params: P("CTX", c, "S", 2, "DF", df)})
+			}
+		}
+	}
+	return r
+}
+
 func parseRuns(thorough bool) []hrun {
 	var r []hrun
 	maxN := 3
@@ -26,10 +52,16 @@ func parseRuns(thorough bool) []hrun {
 
 var props = map[string]propCfg{
 	"C01": {
-		Quick:    parseRuns(false),
-		Thorough: parseRuns(true),
+		Quick:    withOnly(append(parseRuns(false), ctxRuns(false)...), c01ids, true),
+		Thorough: withOnly(append(parseRuns(true), ctxRuns(true)...), c01ids, true),
 		Bounds:   "all byte strings of length <= 3 (quick) / <= 4 (thorough); one token with every literal content of <= 3 bytes; token sequences of <= 2 (quick) / <= 3 (thorough) tokens over 20 token shapes with symbolic literal bytes; with and without a default field; consumers String, %#v, Render, RenderParam",
 		Outside:  "longer inputs; asymptotic running time; symbolic decimal floats (cut); JSON encoding (see C12)",
+	},
+	"C10": {
+		Quick:    withOnly(append(parseRuns(false), ctxRuns(false)...), c10ids, false),
+		Thorough: withOnly(append(parseRuns(true), ctxRuns(true)...), c10ids, false),
+		Bounds:   "as C01: all byte strings <= 3/4, token sequences <= 2/3, and 1-2 free token slots inside 19 bracket/operator contexts (range bounds, groups, field values, prefix/suffix operators), with and without default field",
+		Outside:  "longer inputs; garbage needing more than 2 free tokens in one place",
 	},
 	"C16": {
 		Quick:    []hrun{{Harness: "LexSegment", Params: P("N", 0)}, {Harness: "LexSegment", Params: P("N", 1)}, {Harness: "LexSegment", Params: P("N", 2)}, {Harness: "LexSegment", Params: P("N", 3)}},
